@@ -49,6 +49,10 @@ def make_cases(run):
     cases = corpus_cases()
     for name, cfg, hist in G.boundary_cases():
         cases.append((name + ":" + hist[-2][-1], cfg, hist, "boundary"))
+    for name, cfg, hist in G.empty_boundary_cases():
+        cases.append((name, cfg, hist, "empty"))
+    for i in range(60 if quick else 2500):
+        cases.append(("empty%d" % i, ["src synthetic " + rng.choice(G.SYN[2:9])], G.gen_empty_history(rng), "empty"))
     for name, cfg, hist in G.twin_boundary_cases():
         cases.append((name, cfg, hist, "twin"))
     for i in range(60 if quick else 2500):
@@ -278,7 +282,7 @@ def check(run, replay=None):
                 h2 = shrink(exe, drv, cfg, hist, key, meta)
             run.violation(key, what + "   [case %s]" % name, "\n".join(script_of(cfg, h2)) + "\n--- output\n" + "\n".join(l[:400] for l in r["lines"] if not l.startswith(("share ", "class ", "allowed ")))[:6000],
                           no_input=corr and not spec_broken)
-    for op in ("robj", "misc", "gobj", "distadd", "distrm", "mreg", "mset", "mseto", "kobj", "info", "tinfo", "refresh", "ud", "restrict"):
+    for op in ("robj", "misc", "gobj", "distadd", "distrm", "distrmdepth", "distfail", "disthandle", "mreg", "mset", "mseto", "kobj", "kinfo", "kinfoclr", "info", "infoclr", "tinfo", "tinfoclr", "refresh", "ud", "udclr", "restrict"):
         n = sum(1 for (_, _, hist, _) in cases for l in hist if (" " + op + " ") in (" " + l + " "))
         if n:
             run.bump("op:" + op, n)
